@@ -1,6 +1,7 @@
 package types
 
 import (
+	"math"
 	"strings"
 	"time"
 
@@ -94,6 +95,11 @@ func (cs ClientState) Validate() error {
 	}
 	if err := light.ValidateTrustLevel(cs.TrustLevel.ToTendermint()); err != nil {
 		return err
+	}
+	// tendermint converts both fields to int64 when it computes the voting power needed from the trusted set
+	// (VerifyCommitLightTrusting); a field above MaxInt64 turns into a negative number there
+	if cs.TrustLevel.Numerator > math.MaxInt64 || cs.TrustLevel.Denominator > math.MaxInt64 {
+		return sdkerrors.Wrapf(ErrInvalidTrustLevel, "trust level fields must not exceed %d, given %v", int64(math.MaxInt64), cs.TrustLevel)
 	}
 	if cs.TrustingPeriod == 0 {
 		return sdkerrors.Wrap(ErrInvalidTrustingPeriod, "trusting period cannot be zero")
